@@ -116,13 +116,13 @@ type Interp struct {
 	phiStep       map[*ssa.Phi]uint64
 	phiHdr        map[*ssa.Phi]Val
 	phiDelta      map[*ssa.Phi][]string // "c:<const>" per back edge, or "?"
-	loopChanged bool
-	curLoops    []*ssa.BasicBlock
-	headerObjs  map[*ssa.BasicBlock]int // number of objects existing when the loop was entered
+	loopChanged   bool
+	curLoops      []*ssa.BasicBlock
+	headerObjs    map[*ssa.BasicBlock]int // number of objects existing when the loop was entered
 	// UnrollLoops lets functions with loops be interpreted along their single
 	// feasible path, provided every branch inside is decided (counted loops with
 	// constant bounds); an undecided branch makes the run imprecise.
-	UnrollLoops bool
+	UnrollLoops  bool
 	MaxPathSteps int
 	// TraceReturns records every reachable return with the guards in force.
 	TraceReturns bool
@@ -133,20 +133,20 @@ type Interp struct {
 	// overflowing multiplications/additions as events.
 	TraceArith bool
 
-	objs    []*Obj
-	symObjs map[string]*Obj
-	locs    map[string]locInfo
-	stack   []*ssa.Function
-	acts    []*activation
-	curPos  token.Pos
-	fresh   int
-	steps   int
+	objs       []*Obj
+	symObjs    map[string]*Obj
+	locs       map[string]locInfo
+	stack      []*ssa.Function
+	acts       []*activation
+	curPos     token.Pos
+	fresh      int
+	steps      int
 	storeEpoch int
-	gate      string // key of the branch condition controlling the merge being computed
-	gateExact bool   // the merge has exactly one live edge per side of that branch
-	gateSwap  bool   // the first merged value comes from the false side
-	curSt     *State // state of the instruction being interpreted (for event path guards)
-	totalForks int   // path splits since the last Reset (unroll mode)
+	gate       string // key of the branch condition controlling the merge being computed
+	gateExact  bool   // the merge has exactly one live edge per side of that branch
+	gateSwap   bool   // the first merged value comes from the false side
+	curSt      *State // state of the instruction being interpreted (for event path guards)
+	totalForks int    // path splits since the last Reset (unroll mode)
 }
 
 func New() *Interp {
@@ -367,7 +367,7 @@ func (ip *Interp) Guards(st *State) map[string]bool {
 	}
 	return g
 }
-func (ip *Interp) CurPos() token.Pos  { return ip.curPos }
+func (ip *Interp) CurPos() token.Pos { return ip.curPos }
 
 // StackFuncs returns the functions being interpreted, outermost first.
 func (ip *Interp) StackFuncs() []*ssa.Function { return append([]*ssa.Function(nil), ip.stack...) }
